@@ -122,6 +122,16 @@ def run(chk):
         for opn in ("ADD", "SUB"):
             k += 1
             opjobs.append(SessionJob("n%d:%s" % (k, opn), bytes([O[opn]]), [G.scriptnum(a_), G.scriptnum(b2 if opn == "ADD" else -b2)], [], "BASE", cmds=["steps"], cmp=D.CMP_C01))
+    # the minimal-encoding requirement holds at every point of a session: after an exec that failed or threw, after one that went through,
+    # after going back; and for the operations of the exec itself
+    for b_ in (b"\x00", b"\x80", b"\x01\x00", b"\x01\x80", b"\x00\x00\x00", b"\x05\x00\x00\x00", b"\x05"):
+        for fl in ([], ["MINIMALDATA"]):
+            for pre in (["exec OP_RETURN"], ["exec OP_ADD"], ["exec 0000000001 OP_1ADD"], ["exec OP_1 OP_DROP"], ["step", "rewind", "exec OP_2DROP"], ["exec OP_DUP OP_1ADD"],
+                        ["exec 0100 OP_1ADD OP_DROP"], ["exec OP_1 OP_IF"]):
+                for opn in ("1ADD", "NOT", "PICK"):
+                    k += 1
+                    st = [b_] if opn != "PICK" else [b"\x07", b_]
+                    opjobs.append(SessionJob("n%d:hist:%s" % (k, opn), bytes([O["NOP"], O[opn]]), st, fl, ("BASE", "TAPSCRIPT")[k % 2], cmds=pre + ["steps"], cmp=D.CMP_C01, hist=True))
     divs0 = chk.validate("Trace_Session", opjobs, "c18ops")
     lines = num_lines(chk) + enc_lines(chk)
     chunk = 4000
